@@ -47,6 +47,9 @@ def fromhex(ip, args, kwargs):
             return bytes.fromhex(s)
         except Exception as e:
             raise PyRaise(e, implicit=True)
+    if getattr(s, 'hex_src', None) is not None:
+        hs = s.hex_src
+        return ops._mk_like(b'', parts=hs.parts)      # fromhex(b.hex()) == b
     ss = ops.to_items(ip.ctx, ops.as_sseq(s), limit=1200)
     if len(ss.items) % 2:
         pyraise(ValueError, 'non-hexadecimal number found in fromhex()')
